@@ -553,6 +553,18 @@ def fingerprint_pair(case):
     return res
 
 
+def render_pair(case):
+    """case: dict(a=, b=, kind=, bad=...) ; for bad-decl the inserted declaration must really yield nothing"""
+    if case.get('kind') == 'bad-decl':
+        import tinycss2
+        r = _pp(tinycss2.parse_blocks_contents(case['bad']))
+        if r[0] != 'ok':
+            raise RuntimeError('bad declaration crashes: %s' % (r[1],))
+        if r[1]:
+            return dict(skipped=True)
+    return fingerprint_pair(case)
+
+
 def multi(case):
     """several streams share one worker pool"""
     case = dict(case)
